@@ -28,14 +28,18 @@ Full statement / proved / missing
                            (`expand`: a reference must name an EARLIER, COMPLETED position) succeeds and gives exactly
                            the stream the serializer emits with local_reference=false — i.e. every reference stands for
                            a position that held the value it replaces.
-* `C10_roundtrip`        — PROVED for DAGs (shared arrays, hashes, strings, Sensitive, Binary, leaves; non-string keys;
-                           hashes as keys) under two hypotheses:
+* `C10_roundtrip`        — PROVED for DAGs (shared arrays, hashes, strings, Sensitive, Binary, leaves, types — anonymous
+                           and named ones the loader knows —, object instances; non-string keys; hashes as keys) under
+                           two hypotheses:
                              `Shared`  equal identities carry equal values (what "the same object twice" means),
                              `Frag`    no user hash that the deserializer re-interprets (all keys strings, one of them
                                        `__ptype`): known finding C10-reserved-ptype-key, negation `C10_reserved_key_collision`;
-                                       and with rich_data=false the value is Data.
+                                       object instances are of the catalogue's types and their attribute names are
+                                       not the reserved keys; and with rich_data=false the value is Data.
                            The Binary codec is the model's own base64, proved to invert (`unb64_b64`).
-* missing: object instances and object / alias type definitions (not modelled; not generated by the harness);
+* missing: type definitions that travel in the stream as Pcore::ObjectType instances and are registered by the
+  deserializer, objects with defaulted / typed attributes beyond "the init hash comes back" (C17), RuntimeValue —
+  the harness runs type definitions on the implementation only;
   the real leaf codecs (Regexp, SemVer, SemVerRange, Timespan, Timestamp, URI, type text): a leaf is an abstract payload
   `enc` and decoding a `__pvalue` string of a known type name returns it — exercised on the implementation by the direct
   predicate only; `String()` of floats/containers used as non-string keys with rich_data=false and no complex-key
@@ -145,6 +149,14 @@ def sampleData : V := .arr 1 [.arr 2 [.str longStr, .flt 4609434218613702656], .
   .hash 3 [(.str "k", .str longStr), (.str "__pvalue", .undef)]]
 example : ∃ r, deserialize (serialize ⟨false, true, 2⟩ ⟨false, false, 20⟩ sampleData) = .ok r ∧ r.abs = sampleData.abs :=
   C10_roundtrip _ _ _ (C10_shared_of_check _ _ (by decide)) ⟨by decide, fun _ => by decide⟩
+/-- … and object instances (shared, nested, holding a Sensitive) with named and anonymous types -/
+def samplePair : V := .obj 2 "Verif::Pair" "Verif::Pair('a' => 1, 'b' => …)" [("a", .int 1), ("b", .sens 3 (.str longStr))]
+def sampleObjs : V :=
+  .arr 1 [samplePair, samplePair, .obj 4 "Verif::Box" "Verif::Box(…)" [("v", samplePair)], .str "Verif::Pair",
+    .leaf 5 .td "Verif::Pair" "Verif::Pair", .leaf 6 .ty "Integer[1, 2]" "Integer[1, 2]", .obj 7 "Verif::Unit" "Verif::Unit()" []]
+example : ∃ r, deserialize (serialize ⟨true, true, 2⟩ ⟨false, false, 0⟩ sampleObjs) = .ok r ∧ r.abs = sampleObjs.abs :=
+  C10_roundtrip _ _ _ (C10_shared_of_check _ _ (by decide)) ⟨by decide, fun h => by simp [mkCfg] at h⟩
+
 /-- the position invariant is not vacuous: the collector accepts the stream of the sample -/
 example : ∃ d vals', collect (serialize ⟨true, true, 2⟩ ⟨false, false, 0⟩ sampleDag) [] = .ok (d, vals') ∧
     vals'.length = (serialize ⟨true, true, 2⟩ ⟨false, false, 0⟩ sampleDag).npos := by
